@@ -1,6 +1,10 @@
 // C12 (Prometheus level): idle timeout through the real exporter: PrometheusBuilder::idle_timeout +
 // mock clock; observations are whole render() calls.
-// stdin: `<mask 0..7> <timeout ticks | -> | <op> ...`   ops: U<c|g|h><key>:<v>  A<ticks>  R
+// stdin: `<mask 0..7> <timeout ticks | -> [<naming mode 0..5>] | <op> ...`   ops: U<c|g|h><key>:<v>  A<ticks>  R
+// naming mode (how the key of (kind,id) is spelled; the model treats keys as opaque ids, so the mode
+// must not change any observation): 0 plain `m<k><id>`; 1 dotted `m.<k>.<id>` (sanitised by the
+// exporter to m_<k>_<id>); 2 non-ASCII tail `m<k><id>` + U+00FC (sanitised to m<k><id>_); 3 plain name +
+// one label; 4 dotted + a global label on the builder; 5 per key: id % 4.
 // stdout per case: one token per op: u | a | r[<kind><key>=<v>[,<v>]|...]  (series present in that render)
 use metrics::{Key, Level, Metadata, Recorder};
 use metrics_exporter_prometheus::PrometheusBuilder;
@@ -25,7 +29,13 @@ fn parse_render(text: &str) -> String {
     for line in text.lines() {
         if line.is_empty() || line.starts_with('#') { continue; }
         let (name, val) = match line.rsplit_once(' ') { Some(x) => x, None => continue };
-        if name.contains('{') { continue; } // quantile lines
+        if name.contains("quantile=\"") { continue; } // quantile lines
+        // canonical token: drop the label set and every '_' the sanitiser put in, keep _sum/_count
+        let bare = name.split('{').next().unwrap();
+        let (stem, suffix) = if let Some(b) = bare.strip_suffix("_sum") { (b, "_sum") }
+            else if let Some(b) = bare.strip_suffix("_count") { (b, "_count") } else { (bare, "") };
+        let name = format!("{}{}", stem.replace('_', ""), suffix);
+        let name = name.as_str();
         if let Some(base) = name.strip_suffix("_sum") { hs.entry(base.to_string()).or_default().1 = val.to_string(); }
         else if let Some(base) = name.strip_suffix("_count") { hs.entry(base.to_string()).or_default().0 = val.to_string(); }
         else { out.push(format!("{}={}", &name[1..], val.parse::<f64>().map(|f| format!("{}", f as u64)).unwrap_or(val.to_string()))); }
@@ -40,8 +50,11 @@ fn run_case(line: &str) -> String {
     let mut hsx = head.split_whitespace();
     let mask = mask_of(hsx.next().unwrap().parse().unwrap());
     let timeout = match hsx.next().unwrap() { "-" => None, t => Some(Duration::from_nanos(t.parse().unwrap())) };
+    let mode: u64 = hsx.next().map(|m| m.parse().unwrap()).unwrap_or(0);
     let (clock, mock) = quanta::Clock::mock();
-    let recorder = PrometheusBuilder::new().idle_timeout(mask, timeout).verif_build_with_clock(clock);
+    let mut builder = PrometheusBuilder::new().idle_timeout(mask, timeout);
+    if mode == 4 { builder = builder.add_global_label("env.x", "p"); }
+    let recorder = builder.verif_build_with_clock(clock);
     let handle = recorder.handle();
     let mut out: Vec<String> = Vec::new();
     for tok in ops.split_whitespace() {
@@ -53,7 +66,13 @@ fn run_case(line: &str) -> String {
                 let (k, rest) = rest.split_at(1);
                 let (id, v) = rest.split_once(':').unwrap();
                 let v: u64 = v.parse().unwrap();
-                let key = Key::from_name(format!("m{}{}", k, id));
+                let idn: u64 = id.parse().unwrap();
+                let key = match if mode == 5 { idn % 4 } else { mode } {
+                    1 | 4 => Key::from_name(format!("m.{}.{}", k, id)),
+                    2 => Key::from_name(format!("m{}{}\u{fc}", k, id)),
+                    3 => Key::from_parts(format!("m{}{}", k, id), vec![metrics::Label::new("l.a", format!("v{}", id))]),
+                    _ => Key::from_name(format!("m{}{}", k, id)),
+                };
                 match k {
                     "c" => recorder.register_counter(&key, &META).increment(v),
                     "g" => recorder.register_gauge(&key, &META).set(v as f64),
